@@ -107,6 +107,142 @@ def fb_worker(args):
     return hutil.export(chk)
 
 
+STRUCT_REPLAY = r'''
+# Replay for C13 (struct by value) on the real build: the same C function called through libffi (ABI mode,
+# dlopen) must receive the struct exactly; the callee returns a position-weighted checksum.
+import sys, os, json, subprocess, tempfile, shutil
+import cffi
+case = json.loads(%r)
+dims = case['dims']          # per field: list of array lengths, outermost first ([] = scalar)
+tmp = tempfile.mkdtemp(prefix='verif-c13-')
+try:
+    decl = ' '.join('int f%%d%%s;' %% (i, ''.join('[%%d]' %% n for n in d)) for i, d in enumerate(dims))
+    src = 'struct S { %%s };\nlong chk(struct S s, long tail) { int *p = (int *)&s; long r = 0; ' \
+          'for (unsigned i = 0; i < sizeof(s) / sizeof(int); i++) r = r * 31 + p[i]; return r * 7 + tail; }\n' %% decl
+    open(os.path.join(tmp, 'l.c'), 'w').write(src)
+    subprocess.check_call(['gcc', '-shared', '-fPIC', '-O0', '-o', os.path.join(tmp, 'libl.so'), os.path.join(tmp, 'l.c')])
+    ffi = cffi.FFI()
+    ffi.cdef('struct S { %%s }; long chk(struct S, long);' %% decl)
+    lib = ffi.dlopen(os.path.join(tmp, 'libl.so'))
+    s = ffi.new('struct S *')
+    n = ffi.sizeof('struct S') // 4
+    p = ffi.cast('int *', s)
+    want = 0
+    for i in range(n):
+        p[i] = 1000 + 17 * i
+        want = want * 31 + p[i]
+    want = want * 7 + 5
+    want = (want + 2**63) %% 2**64 - 2**63
+    got = lib.chk(s[0], 5)
+    if got != want:
+        print('VIOLATED: struct { %%s } passed by value through libffi: callee computed %%d, expected %%d' %% (decl, got, want)); sys.exit(1)
+finally:
+    shutil.rmtree(tmp, ignore_errors=True)
+sys.exit(0)
+'''
+
+
+def fbstruct_worker(args):
+    """a struct passed by value: fb_fill_type flattens (multi-dimensional) array fields into libffi's elements[]"""
+    prop, tier, kind, depths = args
+    chk = hutil.sub_check(prop, tier)
+    mod = irgen.backend()
+    L = pystubs.CffiLayout(mod)
+    F = L.flags
+    label = 'fb_build-struct-arg-fields-%s' % ','.join('x'.join(['N'] * d) or 'scalar' for d in depths)
+
+    def replay(case):
+        dims = [[case.get('len%d_%d' % (fi, k), 1) for k in reversed(range(d))] for fi, d in enumerate(depths)]
+        path = chk.write_replay('structarg', STRUCT_REPLAY % json.dumps({'dims': dims}))
+        rc, out = common.run_replay(path, timeout=300)
+        return common.replay_verdict(rc, out), path
+    fbl = mod.struct_layout(('named', 'struct.funcbuilder_s'))
+
+    def ext(ex, name, g, m):
+        if name.startswith('ffi_type_'):
+            r = ex.mem.alloc(24, '@' + name, 'global', fill=0)
+            ex.mem.store(r.base, 8, 8)
+            ex.mem.store(r.base + 8, 8, 2)
+            return r
+        return pystubs.extern_global(ex, name, g, m)
+    st = pystubs.stubs()
+    st['@*'] = ext
+    ex = llsym.Executor(mod, st, loop_bound=40)
+
+    def h(ex):
+        py = pystubs.PyEnv(ex)
+        inputs = {}
+        prim_ft = ex.mem.alloc(24, 'ffi_type of the item', 'heap', fill=0)
+        ex.mem.store(prim_ft.base, 4, 8)
+        ex.mem.store(prim_ft.base + 8, 4, 2)
+        prim = pystubs.new_ctype(ex, L, 4, F['CT_PRIMITIVE_SIGNED'], extra=prim_ft.base)
+        fields, totals = [], []
+        for fi, d in enumerate(depths):
+            ct = prim
+            total = z3.BitVecVal(1, 64)
+            size = z3.BitVecVal(4, 64)
+            for k in range(d):          # innermost dimension first
+                n = z3.BitVec('len%d_%d' % (fi, k), 64)
+                ex.assume(z3.And(n >= 1, n <= 3))
+                inputs['len%d_%d' % (fi, k)] = n
+                total = total * n
+                size = size * n
+                ct = pystubs.new_ctype(ex, L, size, F['CT_ARRAY'], length=n, itemdescr=ct)
+            fields.append(pystubs.new_cfield(ex, L, ct, 0, mask(16), mask(16)))     # cf_bitshift == -1: not a bit-field
+            totals.append(total)
+        for a, b in zip(fields, fields[1:]):
+            ex.mem.store(a + L.cf['cf_next'], b, 8)
+        d_ = py.new_opaque('dict', 'PyDict_Type', items=[[py.new_opaque('key'), f] for f in fields])
+        ssize = sum(totals[1:], totals[0]) * 4
+        sct = pystubs.new_ctype(ex, L, ssize, F['CT_STRUCT'], length=4, stuff=d_, extra=fields[0])
+        res_ft = ex.mem.alloc(24, 'ffi_type of the result', 'heap', fill=0)
+        ex.mem.store(res_ft.base, 4, 8)
+        ex.mem.store(res_ft.base + 8, 4, 2)
+        fresult = pystubs.new_ctype(ex, L, 4, F['CT_PRIMITIVE_SIGNED'], extra=res_ft.base)
+        fargs = py.new_tuple([sct])
+        fb = ex.mem.alloc(fbl[1], 'funcbuilder', 'heap', fill=0)
+        r1 = simp(ex.call('fb_build', [fb.base, fargs, fresult]))
+        nb = simp(ex.mem.load(fb.base + fbl[0][0], 8))
+        hutil.witness(chk, ex, label)
+        nb = ex.concretize(nb, 64, 4096, 'bytes counted') if not is_c(nb) else nb
+        okk = (r1 == 0) and py.exc is None
+        hutil.discharge(chk, ex, label + ':first-pass-succeeds', okk, inputs, replay=replay)
+        if not okk:
+            return
+        buf = ex.mem.alloc(nb, 'cif buffer (exact size)', 'input')
+        ex.mem.store(fb.base + fbl[0][1], buf.base, 8)
+        r2 = simp(ex.call('fb_build', [fb.base, fargs, fresult]))
+        hutil.discharge(chk, ex, label + ':second-pass-succeeds', r2 == 0 and py.exc is None, inputs, replay=replay)
+        endp = simp(ex.mem.load(fb.base + fbl[0][1], 8))
+        hutil.discharge(chk, ex, label + ':second-pass-fills-exactly-the-counted-bytes', bv(endp, 64) == buf.base + nb, inputs, replay=replay)
+        at = simp(ex.mem.load(fb.base + fbl[0][2], 8))
+        sft = simp(ex.mem.load(at, 8))
+        if not is_c(sft):
+            sft = ex.concretize(sft, 64, 4096, 'address of the struct ffi_type')
+        okp = is_c(sft) and buf.base <= sft < buf.base + nb
+        hutil.discharge(chk, ex, label + ':struct-ffi_type-lives-in-the-buffer', okp, inputs, replay=replay)
+        if not okp:
+            return
+        elems = simp(ex.mem.load(sft + 16, 8))
+        if not is_c(elems):
+            elems = ex.concretize(elems, 64, 4096, 'address of elements[]')
+        total = sum(totals[1:], totals[0])
+        tot = ex.concretize(total, 64, 64, 'number of flattened elements')
+        conds = [bv(ex.mem.load(elems + 8 * k, 8), 64) == prim_ft.base for k in range(tot)]
+        conds.append(bv(ex.mem.load(elems + 8 * tot, 8), 64) == 0)
+        hutil.discharge(chk, ex, label + ':elements[]-lists-every-array-item-once-then-NULL', z3.And(*conds), inputs, replay=replay)
+        hutil.discharge(chk, ex, label + ':struct-size-alignment-kind',
+                        z3.And(bv(ex.mem.load(sft, 8), 64) == ssize, bv(ex.mem.load(sft + 8, 2), 16) == 4, bv(ex.mem.load(sft + 10, 2), 16) == 13), inputs)
+
+    def on_oob(ex2, what_, model):
+        chk.report_failure('%s: access outside the cif buffer: %s' % (label, what_), {}, None, None)
+    ex.on_oob = on_oob
+    res = ex.explore(h, max_paths=5000)
+    hutil.finish_explore(chk, ex, res, label)
+    chk.functions = irgen.func_info(mod, sorted(ex.called))
+    return hutil.export(chk)
+
+
 # ---------------------------------------------------------------------------------------------
 # generated wrappers
 
@@ -242,6 +378,8 @@ def wrapper_worker(args):
 
 
 def dispatch(args):
+    if args[2] == 'fbstruct':
+        return fbstruct_worker(args)
     return (fb_worker if args[2] == 'fb' else wrapper_worker)(args)
 
 
@@ -249,14 +387,17 @@ def run(chk):
     quick = chk.tier == 'quick'
     P = (chk.prop, chk.tier)
     cases = [P + ('fb', n) for n in range(0, 4 if quick else 7)]
+    for depths in ((0,), (1,), (2,), (0, 2), (2, 1)) if quick else ((0,), (1,), (2,), (3,), (0, 2), (2, 1), (2, 2), (1, 0, 2)):
+        cases.append(P + ('fbstruct', depths))
     for i, (t, size, sg) in enumerate(INT_TYPES):
         cases.append(P + ('int', 'id_i%d' % i, t, size, sg))
     cases.append(P + ('bool', 'id_b', '_Bool', 1, False))
     cases.append(P + ('double', 'id_d', 'double', 8, True))
     cases.append(P + ('double', 'id_f', 'float', 4, True))
     chk.bounds = {'exchange buffer': 'result + 0..%d arguments, each of symbolic size 1..64 and alignment 1,2,4,8,16' % (3 if quick else 6),
+                  'struct by value': 'a struct argument whose fields are scalars or arrays of up to %d dimensions, every length 1..3' % (2 if quick else 3),
                   'generated wrappers': 'identity functions over %d integer types/typedefs, _Bool, float, double: every Python int / double' % len(INT_TYPES)}
-    chk.outside = ['libffi itself (assembly) and the ABI classification of struct-by-value / variadic calls',
+    chk.outside = ['libffi itself (assembly) and its ABI classification of the described struct; variadic calls',
                    'dlopen paths (they reach the same cdata_call)', 'pointer/char/struct arguments of generated wrappers, multi-argument routing',
                    'return-value conversion differences for narrow types (both paths use the same _cffi_from_c_* / convert_to_object kernels)']
     chk.assume('the generated module is produced by the working tree\'s Recompiler at run time and compiled with the backend\'s flags; '
